@@ -391,7 +391,9 @@ impl Model {
     /// `Yes` during the whole window [send, deadline] and alive throughout.
     fn stable_yes(&self, d: &SendRec, xi: usize) -> bool {
         let x = &self.socks[xi];
-        if !d.ok || x.born_seq >= d.seq {
+        // a send that reported an error is still a send: if the model gives it destinations (valid
+        // address, flag enabled), they are owed the datagram
+        if x.born_seq >= d.seq {
             return false;
         }
         let same = self.is_same_host(d, x);
